@@ -28,6 +28,14 @@ def _r14_1(ctx):
 _r14_1.__name__ = 'r14_1'
 
 
+def _r11_9(ctx):
+    import props.c11 as c11
+    c11.r11_9(ctx)
+
+
+_r11_9.__name__ = 'r11_9'
+
+
 def run(ctx):
     import engine
-    engine.run_rules(ctx, [dt.r02_1, dt.r02_2, dt.r02_3, dt.r02_4, dt.r02_5, dt.r02_6, dt.r02_7, dt.r02_8, ras.r10_4, ras.r10_1, dt.r06_3, dt.r03_3, dt.r05_1, dt.r05_2, dt.r05_3, ras.r01_10, ras.r10_5, ras.r01_11, ras.r01_12, dt.r05_8, ras.r01_5, ras.r01_6, _r14_1])
+    engine.run_rules(ctx, [dt.r02_1, dt.r02_2, dt.r02_3, dt.r02_4, dt.r02_5, dt.r02_6, dt.r02_7, dt.r02_8, ras.r10_4, ras.r10_1, dt.r06_3, dt.r03_3, dt.r05_1, dt.r05_2, dt.r05_3, ras.r01_10, ras.r10_5, ras.r01_11, ras.r01_12, dt.r05_8, ras.r01_5, ras.r01_6, _r14_1, _r11_9, dt.r03_2])
